@@ -12,15 +12,18 @@ TABLES = {
     "calllist": dict(test="TestTableCallList", module="CallListCheck", env={"quick": {"VERIF_CALL_LEN": "5"}, "thorough": {"VERIF_CALL_LEN": "6"}}),
     "coldiff": dict(test="TestTableCollectionDiff", module="CollDiffCheck", env={"quick": {"VERIF_DIFF_LEN": "3"}, "thorough": {"VERIF_DIFF_LEN": "4"}}),
     "gc": dict(test="TestTableGC", module="GCCheck", env={"quick": {"VERIF_GC_NODES": "3"}, "thorough": {"VERIF_GC_NODES": "4"}}),
+    "subjects": dict(test="TestTableSubjects", module="SubjectCheck", pkg="gw", env={"quick": {"VERIF_SUBJ_LEN": "3"}, "thorough": {"VERIF_SUBJ_LEN": "4"}}),
+    "origin": dict(test="TestTableOrigin", module="OriginCheck", pkg="gw", env={"quick": {"VERIF_ORIGIN_LEN": "3"}, "thorough": {"VERIF_ORIGIN_LEN": "4"}}),
+    "httpstatus": dict(test="TestTableHTTPStatus", module="HttpStatusCheck", pkg="gw", env={}),
     "modeldiff": dict(test="TestTableModelDiff", module="ModelDiffCheck", env={"quick": {"VERIF_DIFF_KEYS": "2"}, "thorough": {"VERIF_DIFF_KEYS": "3"}}),
 }
 
 
-def build_fn(workdir):
+def build_fn(workdir, pkg="fn"):
     shutil.copy(os.path.join(REPO, "go.sum"), os.path.join(HARNESS, "go.sum"))
-    binp = os.path.join(workdir, "fn.test")
+    binp = os.path.join(workdir, pkg + ".test")
     if not os.path.exists(binp):
-        run([GO, "test", "-c", "-tags", "verif", "-o", binp, "./fn"], cwd=HARNESS, timeout=600)
+        run([GO, "test", "-c", "-tags", "verif", "-o", binp, "./" + pkg], cwd=HARNESS, timeout=600)
     return binp
 
 
@@ -28,7 +31,7 @@ def run_table(name, tier, workdir):
     """Returns dict(rows, bad=[...], complete, wall_s, samples)."""
     t = Timer()
     spec = TABLES[name]
-    binp = build_fn(workdir)
+    binp = build_fn(workdir, spec.get("pkg", "fn"))
     d = os.path.join(workdir, "tab-" + name)
     os.makedirs(d, exist_ok=True)
     env = dict(GOENV, VERIF_OUT=d, **spec["env"].get(tier, {}))
